@@ -61,6 +61,14 @@ def _defs(fn):
             t = n.targets[0]
             if isinstance(t, ast.Name):
                 vals[t.id] = n.value
+            elif isinstance(t, (ast.Tuple, ast.List)) and isinstance(
+                    n.value, (ast.Tuple, ast.List)) and len(
+                        n.value.elts) == len(t.elts) and not all(
+                            isinstance(x, ast.Name) for x in t.elts):
+                # `a, self.x = self.x, None`: the names among the targets
+                for x, v in zip(t.elts, n.value.elts):
+                    if isinstance(x, ast.Name):
+                        vals[x.id] = v
             elif isinstance(t, (ast.Tuple, ast.List)) and all(
                     isinstance(x, ast.Name) for x in t.elts):
                 for i, x in enumerate(t.elts):
